@@ -46,6 +46,20 @@ def getInt (rgs : List RG) (i : Int) : Option (List RG) :=
   let j := if i < 0 then i + rgs.length else i
   if j < 0 then none else (rgs[j.toNat]?).map (fun r => [r])
 
+/-- one selection step of an access program -/
+inductive Sel where
+  | slice (start stop : Option Int) (step : Int)     -- `pf[start:stop:step]`
+  | pick (i : Int)                                   -- `pf[i]`
+  deriving Repr
+
+def applySel (rgs : List RG) : Sel → Option (List RG)
+  | .slice a b k => some (getSlice rgs a b k)
+  | .pick i => getInt rgs i
+
+/-- a chain of selections, `none` = IndexError somewhere -/
+def runSels (rgs : List RG) (sels : List Sel) : Option (List RG) :=
+  sels.foldl (fun acc s => acc.bind (fun r => applySel r s)) (some rgs)
+
 /-- `head(nrows)` as written: `for i, rg in enumerate(row_groups): total += rg.num_rows; if total >=
     nrows: break`, then `self[:i+1].to_pandas().head(nrows)`.  `headTake` is `i + 1`: one more than
     the first index at which the cumulative row count reaches `nrows`, or all row groups if it never
